@@ -40,11 +40,11 @@ type flagsT struct {
 }
 
 type caseT struct {
-	Zone   string   `json:"zone"`
-	QK     string   `json:"qk"`
-	Flags  flagsT   `json:"flags"`
-	Tamper []string `json:"tamper"`
-	Anchor bool     `json:"anchor"`
+	Zone   string            `json:"zone"`
+	QK     string            `json:"qk"`
+	Flags  flagsT            `json:"flags"`
+	Tamper map[string]string `json:"tamper"` // position -> kind ("none" = untouched)
+	Anchor bool              `json:"anchor"`
 	Exp    struct {
 		Rcode string `json:"rcode"`
 		AD    bool   `json:"ad"`
@@ -58,11 +58,11 @@ type input struct {
 const zoneName = "zone.test."
 
 type world struct {
-	n                 *authkit.Net
-	tld, zone, evil   *authkit.Zone
-	tldSrv, zoneSrv   *authkit.Server
-	qname             string
-	qtype             uint16
+	n               *authkit.Net
+	tld, zone, evil *authkit.Zone
+	tldSrv, zoneSrv *authkit.Server
+	qname           string
+	qtype           uint16
 }
 
 func build(c caseT) (*world, error) {
@@ -124,7 +124,7 @@ func build(c caseT) (*world, error) {
 	case "dname":
 		w.qname = "x.d.zone.test."
 	}
-	if c.Tamper[1] == "clonetag" && w.zone.Key0() != nil {
+	if c.Tamper["dnskey"] == "clonetag" && w.zone.Key0() != nil {
 		if clone := authkit.CloneTagKey(zoneName, w.zone.Key0(), 400000); clone != nil {
 			w.zone.AddKey(clone)
 		}
@@ -277,13 +277,32 @@ func dropProofs(sec []dns.RR) []dns.RR {
 
 func (w *world) install(c caseT) (applied *int) {
 	count := 0
-	pos, kind := c.Tamper[0], c.Tamper[1]
-	if kind == "none" || kind == "clonetag" {
-		return &count
+	hooks := map[*authkit.Server][]func(*authkit.Exchange){}
+	for _, pos := range []string{"referral", "dnskey", "answer"} {
+		kind := c.Tamper[pos]
+		if kind == "" || kind == "none" || kind == "clonetag" {
+			continue
+		}
+		srv, h := w.hookFor(pos, kind, &count)
+		if h != nil {
+			hooks[srv] = append(hooks[srv], h)
+		}
 	}
+	for srv, hs := range hooks {
+		hs := hs
+		srv.SetHook(func(ex *authkit.Exchange) {
+			for _, h := range hs {
+				h(ex)
+			}
+		})
+	}
+	return &count
+}
+
+func (w *world) hookFor(pos, kind string, count *int) (*authkit.Server, func(*authkit.Exchange)) {
 	switch pos {
 	case "referral":
-		w.tldSrv.SetHook(func(ex *authkit.Exchange) {
+		return w.tldSrv, func(ex *authkit.Exchange) {
 			if ex.Zone == nil || ex.Zone.Name != "test." {
 				return
 			}
@@ -292,7 +311,7 @@ func (w *world) install(c caseT) (applied *int) {
 			if !isRef && !isDSQ {
 				return
 			}
-			count++
+			*count++
 			dsPick := func(rr dns.RR) bool {
 				t := rr.Header().Rrtype
 				return t == dns.TypeDS || t == dns.TypeNSEC || t == dns.TypeNSEC3
@@ -345,27 +364,24 @@ func (w *world) install(c caseT) (applied *int) {
 			}
 			ex.Resp.Ns = apply(ex.Resp.Ns)
 			ex.Resp.Answer = apply(ex.Resp.Answer)
-		})
+		}
 	case "dnskey":
-		w.zoneSrv.SetHook(func(ex *authkit.Exchange) {
+		return w.zoneSrv, func(ex *authkit.Exchange) {
 			if ex.Q.Qtype != dns.TypeDNSKEY || !strings.EqualFold(ex.Q.Name, zoneName) {
 				return
 			}
-			count++
-			if kind == "swapds" {
-				return
-			}
+			*count++
 			ex.Resp.Answer = w.tamperSection(ex.Resp.Answer, kind, w.zone, func(rr dns.RR) bool { return rr.Header().Rrtype == dns.TypeDNSKEY })
-		})
+		}
 	case "answer":
-		w.zoneSrv.SetHook(func(ex *authkit.Exchange) {
+		return w.zoneSrv, func(ex *authkit.Exchange) {
 			if ex.Zone == nil || ex.Zone.Name != zoneName {
 				return
 			}
 			if ex.Q.Qtype != w.qtype || !strings.EqualFold(ex.Q.Name, w.qname) {
 				return
 			}
-			count++
+			*count++
 			switch kind {
 			case "dropproof":
 				ex.Resp.Ns = dropProofs(ex.Resp.Ns)
@@ -390,27 +406,27 @@ func (w *world) install(c caseT) (applied *int) {
 					ex.Resp.Ns = w.tamperSection(ex.Resp.Ns, kind, w.zone, all)
 				}
 			}
-		})
+		}
 	}
-	return &count
+	return nil, nil
 }
 
 // ---- oracle -------------------------------------------------------------------
 
 func zoneSigned(k string) bool { return k == "signed" || k == "signed-same" || k == "nsec3" }
 
-func effective(c caseT) bool {
-	pos, kind := c.Tamper[0], c.Tamper[1]
+func effectiveAt(c caseT, pos string) bool {
+	kind := c.Tamper[pos]
 	needsProof := c.QK == "nodata" || c.QK == "nx" || c.QK == "wild"
 	switch {
-	case kind == "none" || kind == "clonetag":
+	case kind == "" || kind == "none" || kind == "clonetag":
 		return false
 	case pos == "referral" && (kind == "dropproof" || kind == "foreignproof"):
 		return !zoneSigned(c.Zone)
 	case pos == "referral" && (kind == "dropds" || kind == "swapds"):
 		return zoneSigned(c.Zone)
 	case pos == "dnskey":
-		return zoneSigned(c.Zone) && kind != "swapds"
+		return zoneSigned(c.Zone)
 	case pos == "answer" && (kind == "dropproof" || kind == "foreignproof"):
 		return zoneSigned(c.Zone) && needsProof
 	case pos == "answer" && kind == "inject":
@@ -419,6 +435,14 @@ func effective(c caseT) bool {
 		return zoneSigned(c.Zone)
 	}
 	return true
+}
+
+func effective(c caseT) bool {
+	return effectiveAt(c, "referral") || effectiveAt(c, "dnskey") || effectiveAt(c, "answer")
+}
+
+func tamperString(c caseT) string {
+	return fmt.Sprintf("referral=%s dnskey=%s answer=%s", c.Tamper["referral"], c.Tamper["dnskey"], c.Tamper["answer"])
 }
 
 func rrKey(rr dns.RR) string {
@@ -473,7 +497,7 @@ func judge(c caseT, w *world, r *dns.Msg, edns bool) (string, string) {
 			return "ad-unasked", fmt.Sprintf("AD set toward a client with CD=%v DO=%v AD=%v", c.Flags.CD, c.Flags.DO, c.Flags.AD)
 		}
 		if !pathSecure {
-			return "ad-insecure", "AD set although the path is not secure (zone " + c.Zone + ", tamper " + strings.Join(c.Tamper, "/") + ")"
+			return "ad-insecure", "AD set although the path is not secure (zone " + c.Zone + ", tamper " + tamperString(c) + ")"
 		}
 	}
 	if r.Rcode == dns.RcodeServerFailure {
@@ -489,7 +513,7 @@ func judge(c caseT, w *world, r *dns.Msg, edns bool) (string, string) {
 		return "no-anchor", fmt.Sprintf("no trust anchor configured, reply is %s not SERVFAIL", dns.RcodeToString[r.Rcode])
 	}
 	if effective(c) {
-		return "tampered-accepted", fmt.Sprintf("tampering %v was effective on a validated path, reply is %s with answers %v", c.Tamper, dns.RcodeToString[r.Rcode], nonSig(r.Answer))
+		return "tampered-accepted", fmt.Sprintf("tampering %s was effective on a validated path, reply is %s with answers %v", tamperString(c), dns.RcodeToString[r.Rcode], nonSig(r.Answer))
 	}
 	// must be exactly what the signer published
 	if r.Rcode != wantRcode {
@@ -526,7 +550,7 @@ func TestDnssecReplay(t *testing.T) {
 			keys = []string{w.n.Root.Keys[0].RR.String()}
 		}
 		s, _ := pipe.NewResolverServer(pipe.ResolverOpts{RootAddr: w.n.RootSrv.Addr, RootKeys: keys, DNSSEC: true, Dir: dir, Mapper: w.n.Mapper()})
-		key := fmt.Sprintf("%s|%s|%v|%v|%v", c.Zone, c.QK, c.Flags, c.Tamper, c.Anchor)
+		key := fmt.Sprintf("%s|%s|%v|%s|%v", c.Zone, c.QK, c.Flags, tamperString(c), c.Anchor)
 		for round := 0; round < 2; round++ {
 			q := new(dns.Msg)
 			q.SetQuestion(w.qname, w.qtype)
@@ -544,7 +568,7 @@ func TestDnssecReplay(t *testing.T) {
 			}
 			if clause, what := judge(c, w, r, edns); clause != "" {
 				res.Violate("c01/"+clause+"/"+key+fmt.Sprintf("/round%d", round),
-					fmt.Sprintf("[zone %s, query %s %s, flags %+v, tamper %v, anchor %v, round %d] %s", c.Zone, w.qname, dns.TypeToString[w.qtype], c.Flags, c.Tamper, c.Anchor, round, what),
+					fmt.Sprintf("[zone %s, query %s %s, flags %+v, tamper %s, anchor %v, round %d] %s", c.Zone, w.qname, dns.TypeToString[w.qtype], c.Flags, tamperString(c), c.Anchor, round, what),
 					map[string]any{"driver": "c01", "case": c, "reply": r.String(), "tamper_applied": *applied})
 			}
 			// drift against the model's predicted outcome
